@@ -214,6 +214,21 @@ def decodeCall (M : List Variant) : J → Option CallV
       | none => none
   | _ => none
 
+/-- a method type that keeps every member it is handed: `method` (which must name it) plus a flattened catch-all.
+    What it is shown is what `FilterMap` lets through. -/
+def namesMethod (name : String) (rest : Members) : Bool :=
+  count "method" rest == 1 && (match lookup "method" rest with | some (.str n _) => n == name | _ => false)
+
+def decodeCallOpen (name : String) : J → Option (Members × Flags)
+  | .obj ms =>
+    match splitFlags ms with
+    | none => none
+    | some (rest, o, m, u) =>
+      if namesMethod name rest then
+        some (rest, { oneway := o.getD false, more := m.getD false, upgrade := u.getD false })
+      else none
+  | _ => none
+
 /-! ### encoders (`Serialize` impls) -/
 
 def encodeV : V → J
